@@ -103,6 +103,28 @@ func corpus(thorough bool) [][]bqlm.Clause {
 			}
 		}
 	}
+	// the same alias name on BOTH clauses (a value only the join's compatibility check compares), next to whatever
+	// else the two clauses share
+	for i := range rc {
+		if !thorough && i%6 != 1 {
+			continue
+		}
+		for j := range rc {
+			for _, named := range bqlm.Namings([]bqlm.Clause{rc[i], rc[j]}) {
+				shared := false
+				for _, b1 := range named[0].Bindings() {
+					for _, b2 := range named[1].Bindings() {
+						shared = shared || b1 == b2
+					}
+				}
+				if !shared {
+					continue
+				}
+				st := bqlm.Modifier{Pos: 'S', Kind: "TYPE"}
+				out = append(out, []bqlm.Clause{bqlm.WithModifier(named[0], st, "?m0"), bqlm.WithModifier(named[1], st, "?m0")})
+			}
+		}
+	}
 	// time bounds taken from a binding of an earlier clause: the planner derives the
 	// lookup options of every row from shared options
 	out = append(out, bqlm.BoundAliasShapes()...)
